@@ -496,7 +496,11 @@ fn recover(
                 page[PAGE_SIZE - 32 - 8..PAGE_SIZE - 32]
                     .copy_from_slice(&elided_children.to_bytes());
 
+                #[cfg(nomt_verif)]
+                crate::verif_hook::begin(crate::verif_hook::Kind::Write, std::os::fd::AsRawFd::as_raw_fd(ht_fd), pn * PAGE_SIZE as u64, PAGE_SIZE as u64, "ht.recover.write")?;
                 ht_fd.write_all_at(&page, pn * PAGE_SIZE as u64)?;
+                #[cfg(nomt_verif)]
+                crate::verif_hook::end(crate::verif_hook::Kind::Write, std::os::fd::AsRawFd::as_raw_fd(ht_fd), pn * PAGE_SIZE as u64, PAGE_SIZE as u64, "ht.recover.write");
             }
         }
     }
@@ -513,7 +517,11 @@ fn recover(
             page_data[..].copy_from_slice(meta_map.page_slice(changed_meta_page_ix));
 
             let pn = ht_offsets.meta_bytes_index(changed_meta_page_ix as u64);
+            #[cfg(nomt_verif)]
+            crate::verif_hook::begin(crate::verif_hook::Kind::Write, std::os::fd::AsRawFd::as_raw_fd(ht_fd), pn * PAGE_SIZE as u64, PAGE_SIZE as u64, "ht.recover.write_meta")?;
             ht_fd.write_all_at(page_data, pn * PAGE_SIZE as u64)?;
+            #[cfg(nomt_verif)]
+            crate::verif_hook::end(crate::verif_hook::Kind::Write, std::os::fd::AsRawFd::as_raw_fd(ht_fd), pn * PAGE_SIZE as u64, PAGE_SIZE as u64, "ht.recover.write_meta");
 
             page_pool.dealloc(page);
         }
